@@ -346,8 +346,10 @@ readLoop:
 			// set outer wrapped var
 			wrapped = wrappedConn
 
-			// We found our transport! First order of business: disable deadline
-			err = wrapped.SetDeadline(time.Time{})
+			// We found our transport! First order of business: disable deadline.
+			// The deadline was armed on clientConn, so it is cleared there: a wrapped
+			// connection need not support SetDeadline (obfs4 answers ENOTSUP).
+			err = clientConn.SetDeadline(time.Time{})
 			if err != nil {
 				logger.Errorln("error occurred while setting deadline:", err)
 			}
